@@ -133,9 +133,9 @@ def c18(ctx):
 @check("C03")
 def c03(ctx):
     if ctx.quick:
-        consts = {"PSets": "{1, 2, 3, 4, 5}", "Angles": "{0, 1, 5, 10}"}
+        consts = {"PSets": "{1, 2, 3, 4, 5, 6, 7}", "Angles": "{0, 1, 5, 10}"}
     else:
-        consts = {"PSets": "{1, 2, 3, 4, 5}", "Angles": "{0, 1, 3, 5, 8, 10}"}
+        consts = {"PSets": "{1, 2, 3, 4, 5, 6, 7}", "Angles": "{0, 1, 3, 5, 8, 10}"}
     g = tlc(ctx, "Gen_Chain", constants=consts, workers=8, xmx="12g")
     lines = tlc_json_lines(g["out"], "chain")
     if not lines:
@@ -168,9 +168,9 @@ def c03(ctx):
 @check("C09")
 def c09(ctx):
     if ctx.quick:
-        consts = {"MaxDepth": 2, "Isos": "{1, 2, 3, 5}", "Leafs": "{1, 2}"}
+        consts = {"MaxDepth": 2, "Isos": "{1, 2, 3, 5, 7}", "Leafs": "{1, 2}"}
     else:
-        consts = {"MaxDepth": 3, "Isos": "{1, 2, 3, 4, 5, 6}", "Leafs": "{1, 2, 3}"}
+        consts = {"MaxDepth": 3, "Isos": "{1, 2, 3, 4, 5, 6, 7, 8}", "Leafs": "{1, 2, 3}"}
     # the recursive definitions of module Stack agree with the incremental model (small bound)
     tlc(ctx, "Gen_Stack", cfg="MC_Stack", workers=4)
     g = tlc(ctx, "Gen_Stack", constants=consts, workers=8, xmx="12g")
@@ -284,6 +284,15 @@ def c02(ctx):
 def c04(ctx):
     ev, viols = solver_trace(ctx, "C04", 4 if ctx.quick else 12, follow=True)
     solver_report(ctx, ev, viols, "C04")
+    # continuation order must survive the collision filter of a robot with shape (C11's trace spec, continuation entries)
+    opwv(ctx, ["record", "shape", ctx.path("shape.trace")])
+    sviols, _ = trace_validate(ctx, "Trace_Shape", ctx.path("shape.trace"))
+    sev = read_ndjson(ctx.path("shape.trace"))
+    for v in sviols:
+        e = sev[v["l"] - 1]
+        if "continuing" in e.get("entry", "") and any(c in ("C11:not-the-ordered-subsequence", "C11:answers-altered") for c in v["clause"]):
+            ctx.violation("C04:order-lost-by-the-collision-filter:%s" % e["entry"], "shape event #%d %s" % (v["l"], json.dumps(e)[:600]), e)
+    ctx.evaluations += len(sev)
     ctx.extra["history_events"] = sum(1 for e in ev if e["ev"] == "follow")
     ctx.extra["histories"] = sum(1 for e in ev if e["ev"] == "reset")
     return finish(ctx, rule=SOLVER_RULE + "; histories: dense sinusoidal joint-space trajectories followed with "
